@@ -452,7 +452,11 @@ class InProtocolBase(ProtocolMixin):
             if match:
                 tz_hr, tz_min = [int(match.group(x))
                                                    for x in ("tz_hr", "tz_min")]
-                tz = FixedOffset(tz_hr * 60 + tz_min, {})
+                # the sign applies to the whole offset, not just to the hours
+                tz_offset = abs(tz_hr) * 60 + tz_min
+                if match.group("tz_hr").startswith('-'):
+                    tz_offset = -tz_offset
+                tz = FixedOffset(tz_offset, {})
                 retval = _parse_datetime_iso_match(match, tz=tz)
                 if astz is not None:
                     retval = retval.astimezone(astz)
